@@ -370,7 +370,9 @@ def run(ctx):
                 ctx.fail({"kind": "shift", "method": "event_synchronization"},
                          f"ES changes under a common time shift {c}: {got} -> {g3}", dict(rep, shift=c))
             if math.isinf(tm):
-                k = rng.choice([0.5, 2.0, 3.0, 8.0])
+                # (incl. extreme power-of-two units: an absolute tolerance anywhere in the
+                # distance tests would show here)
+                k = rng.choice([0.5, 2.0, 3.0, 8.0, 2.0 ** -34, 2.0 ** -20, 2.0 ** 30])
                 s1 = np.arange(T, dtype=float) * k if a1 is None else a1 * k
                 s2 = np.arange(T, dtype=float) * k if a2 is None else a2 * k
                 r4 = call(lambda: ES.event_synchronization(ax, ay, ts1=s1, ts2=s2, taumax=tm,
